@@ -11,7 +11,7 @@ from __future__ import annotations
 
 import ast
 
-from ..common import Ctx, inline_locals, src
+from ..common import Ctx, call_name, inline_locals, src
 from ..model import AnalysisError, bind_call, own_scope_nodes
 from ..cfg import names_in
 
@@ -54,6 +54,8 @@ def run(ctx: Ctx):
 
     res.rule("BROADCAST-ARITY", "core outer / batched_outer: at every broadcast product reshape(a, s1) * reshape(b, s2) the two target shapes have the same number of entries in every loop iteration -- decided with an affine-relation (Karr) analysis over integer locals, tuple lengths and array ranks (first iteration peeled, loop iterated to a fixpoint)", floor=2)
     ctx.guarded(broadcast_arity, ctx, "BROADCAST-ARITY")
+    res.rule("INDEX-WIDTH", "sample_khatri_rao: the mixed-radix accumulation of the sampled row index (acc = acc * size + index) starts from an integer array of an explicitly wide type (dtype=int / int64), not from a Python scalar or from the caller's index arrays: otherwise the row index inherits a narrow integer type and wraps around for large products of row counts", floor=1)
+    ctx.guarded(index_width, ctx)
 
 
 def registry(ctx: Ctx):
@@ -402,3 +404,48 @@ def option_live(ctx: Ctx):
                 if _irrelevant_by_design(f, oname, r):
                     continue
                 ctx.finding("OPTION-LIVE", f, r, f"this return path of `{f.name}` is not influenced by the option `{oname}` in any way: the option is silently ignored on this path", construct=f"{src(r)} ignores {oname}")
+
+
+# ---------------------------------------------------------------------------------
+# INDEX-WIDTH: the flattened row index is accumulated in a wide integer type
+# ---------------------------------------------------------------------------------
+def index_width(ctx: Ctx):
+    from .state import _resolve_at
+
+    res = ctx.res
+    f = ctx.repo.func("tensorly.decomposition._cp.sample_khatri_rao")
+    n = 0
+    for st in ast.walk(f.node):
+        # acc = acc * size + idx  (in any operand order), also as acc *= size; acc += idx is not recognised on purpose
+        if not (isinstance(st, ast.Assign) and len(st.targets) == 1 and isinstance(st.targets[0], ast.Name) and isinstance(st.value, ast.BinOp) and isinstance(st.value.op, ast.Add)):
+            continue
+        acc = st.targets[0].id
+        sides = [st.value.left, st.value.right]
+        mul = next((x for x in sides if isinstance(x, ast.BinOp) and isinstance(x.op, ast.Mult) and any(isinstance(y, ast.Name) and y.id == acc for y in (x.left, x.right))), None)
+        if mul is None:
+            continue
+        n += 1
+        # the definition of acc that reaches the loop containing this statement
+        loop = None
+        par = {}
+        for p_ in ast.walk(f.node):
+            for c_ in ast.iter_child_nodes(p_):
+                par[id(c_)] = p_
+        cur = st
+        while id(cur) in par:
+            cur = par[id(cur)]
+            if isinstance(cur, (ast.For, ast.While)):
+                loop = cur
+                break
+        init = _resolve_at(ast.Name(id=acc, ctx=ast.Load()), loop if loop is not None else st, f.node, depth=1)
+        wide = False
+        why = src(init)[:60]
+        if isinstance(init, ast.Call) and call_name(init) in ("zeros", "zeros_like", "full", "ones", "empty", "arange", "array", "asarray"):
+            dt = next((k.value for k in init.keywords if k.arg == "dtype"), None)
+            dts = src(dt) if dt is not None else ""
+            wide = dts in ("int", "np.int64", "'int64'", "numpy.int64", "np.intp", "tl.int64", "T.int64") or dts.endswith("int64")
+        res.instance("INDEX-WIDTH", f"{f.qname}: {src(st)[:60]}", sample={"accumulator": acc, "starts_from": why, "ok": wide})
+        if not wide:
+            ctx.finding("INDEX-WIDTH", f, st, f"sample_khatri_rao accumulates the sampled row index in `{acc}`, which starts from `{why}`: the index then takes the integer type of the caller's index arrays (a Python scalar is weakly typed) and wraps around once the product of the row counts exceeds that type's range; allocate it with an explicit wide integer dtype", construct=f"sample_khatri_rao: {acc} starts from {why}")
+    if n == 0:
+        raise AnalysisError("INDEX-WIDTH: no mixed-radix accumulation (acc = acc * size + index) found in sample_khatri_rao; cannot decide")
